@@ -15,11 +15,11 @@ Lemma calls_set_ok : calls_set =
 Proof. reflexivity. Qed.
 
 Lemma calls_enqueue_ok : calls_enqueue =
-  [".load"; ".find"; "get"; ".expect"; "set"; ".compare_exchange_weak"].
+  [".load"; ".find"; "get"; ".expect"; "set"; ".compare_exchange_weak"; "break"].
 Proof. reflexivity. Qed.
 
 Lemma calls_dequeue_ok : calls_dequeue =
-  [".load"; ".compare_exchange_weak"].
+  [".load"; "break"; ".compare_exchange_weak"; "break"].
 Proof. reflexivity. Qed.
 
 Lemma calls_new_ok : calls_new =
@@ -47,5 +47,5 @@ Lemma calls_raw_load_ok : calls_raw_load =
 Proof. reflexivity. Qed.
 
 Lemma calls_raw_init_ok : calls_raw_init =
-  [".load"; ".is_null"; "Box::default"; ".swap"; "Box::into_raw"; "assert!"; ".is_null"].
+  [".load"; ".is_null"; "return"; "Box::default"; ".swap"; "Box::into_raw"; "assert!"; ".is_null"].
 Proof. reflexivity. Qed.
